@@ -9,8 +9,9 @@
     bytes / advance beyond the grant panic ("CONTRACT")
     the k-th request may fail (`failAt`)
 
-  `CaptureSource` frames are not modelled in this layer (the `capBegin`/`capEnd` operations are
-  rejected), so the theorems of C07/C08 quantify over capture-free programs.
+  `CaptureSource` frames are part of this layer: while a capture is open the base source is not
+  advanced, every request reaches it with the captured offset added, and `into_bytes` advances it at
+  the end (`S.request`, `S.advance`, `S.capEnd`).
 -/
 import Bcder.Model.Source
 namespace Bcder
@@ -27,10 +28,17 @@ structure S where
   granted : Nat          -- how much of it the base source has made available
   reqs : Nat             -- requests issued so far
   failAt : Option Nat    -- the request (by index) that fails
-  limit : Option Nat     -- `LimitedSource::limit`
+  limit : Option Nat     -- `LimitedSource::limit` of the innermost `LimitedSource`
+  frames : List Frame := []   -- open `CaptureSource`s (innermost first): what each has advanced over
+                              -- (`pos` = its length; the base source is NOT advanced meanwhile) and
+                              -- the limit of the `LimitedSource` it wraps
 deriving Repr
 
 namespace S
+
+/-- the octets advanced over inside open captures and not yet consumed from the base source: the sum
+    of the `pos` fields of the open `CaptureSource`s -/
+def off (s : S) : Nat := (s.frames.map (·.buf.length)).sum
 
 /-- base `Source::request` -/
 def baseRequest (pol : Policy) (s : S) (len : Nat) : Res (Nat × S) :=
@@ -39,39 +47,64 @@ def baseRequest (pol : Policy) (s : S) (len : Nat) : Res (Nat × S) :=
     let g := max s.granted (pol s.reqs len s.data.length)
     .ok (g, { s with reqs := s.reqs + 1, granted := g })
 
-/-- `LimitedSource::request` -/
+/-- `LimitedSource::request` over the open `CaptureSource`s over the base: each `CaptureSource`
+    asks the source below for `pos + len` and answers `len' - pos` (`self.len - self.pos`, an
+    unsigned subtraction).  The limits of the enclosing `LimitedSource`s are not applied again
+    here: the library keeps `inner limit + pos ≤ outer limit` (`capture` copies the limit, readers
+    only narrow and restore it), under which they never cut anything off. -/
 def request (pol : Policy) (s : S) (len : Nat) : Res (Nat × S) :=
-  match s.limit with
-  | some l =>
-    match s.baseRequest pol (min l len) with
-    | .ok (r, s') => .ok (min l r, s')
-    | .error e => .error e
-  | none => s.baseRequest pol len
+  let m := match s.limit with | some l => min l len | none => len
+  match s.baseRequest pol (s.off + m) with
+  | .error e => .error e
+  | .ok (r, s') =>
+    if r < s.off then .error (.panic "attempt to subtract with overflow (CaptureSource::request)")
+    else match s.limit with
+      | some l => .ok (min l (r - s.off), s')
+      | none => .ok (r - s.off, s')
 
-/-- `LimitedSource::slice` over the base's `slice` -/
+/-- `LimitedSource::slice` over `CaptureSource::slice` (`&source.slice()[pos..]`) over the base -/
 def slice (s : S) : Bytes :=
-  let b := s.data.take s.granted
+  let b := (s.data.take s.granted).drop s.off
   match s.limit with
   | some l => if b.length > l then b.take l else b
   | none => b
 
-/-- `LimitedSource::advance` over the base's `advance` -/
+/-- `LimitedSource::advance`; over the base's `advance`, or, inside a capture, over
+    `CaptureSource::advance` (`assert!(self.len >= self.pos + len); self.pos += len`) -/
 def advance (s : S) (n : Nat) : Res S :=
-  match s.limit with
-  | some l =>
-    if l < n then .error (.panic "advanced past end of limit")
-    else if s.granted < n then .error (.panic "CONTRACT advance beyond granted")
-    else .ok { s with data := s.data.drop n, granted := s.granted - n, limit := some (l - n) }
-  | none =>
-    if s.granted < n then .error (.panic "CONTRACT advance beyond granted")
-    else .ok { s with data := s.data.drop n, granted := s.granted - n }
+  if (match s.limit with | some l => decide (l < n) | none => false) then
+    .error (.panic "advanced past end of limit")
+  else if s.granted < s.off + n then .error (.panic "CONTRACT advance beyond granted")
+  else
+    let limit' := s.limit.map (· - n)
+    match s.frames with
+    | [] => .ok { s with data := s.data.drop n, granted := s.granted - n, limit := limit' }
+    | f :: fs => .ok { s with frames := { f with buf := f.buf ++ (s.data.drop s.off).take n } :: fs, limit := limit' }
 
 /-- `LimitedSource::bytes(0, n)` -/
 def bytes0 (s : S) (n : Nat) : Res Bytes :=
   if (match s.limit with | some l => decide (l < n) | none => false) then
     .error (.panic "assertion end <= limit")
-  else if s.granted < n then .error (.panic "CONTRACT bytes beyond granted")
-  else .ok (s.data.take n)
+  else if s.granted < s.off + n then .error (.panic "CONTRACT bytes beyond granted")
+  else .ok ((s.data.drop s.off).take n)
+
+/-- `CaptureSource::into_bytes` of the innermost capture: `source.bytes(0, pos)` and
+    `source.advance(pos)` on the `LimitedSource` it wraps (whose limit was `f.outer`) -/
+def capEnd (s : S) : Res (Bytes × S) :=
+  match s.frames with
+  | [] => .error (.panic "capEnd without frame")
+  | f :: fs =>
+    if (match f.outer with | some l => decide (l < f.buf.length) | none => false) then
+      .error (.panic "advanced past end of limit")
+    else
+      let limit' := f.outer.map (· - f.buf.length)
+      match fs with
+      | [] =>
+        -- the base source is advanced now
+        if s.granted < f.buf.length then .error (.panic "CONTRACT advance beyond granted")
+        else .ok (f.buf, { s with data := s.data.drop f.buf.length, granted := s.granted - f.buf.length,
+                                  limit := limit', frames := [] })
+      | g :: gs => .ok (f.buf, { s with limit := limit', frames := { g with buf := g.buf ++ f.buf } :: gs })
 
 end S
 
@@ -123,9 +156,12 @@ def stepS (pol : Policy) (s : S) : Op → Res (Resp × S)
     match s.request pol n with
     | .error e => .error e
     | .ok (r, s1) => .ok (.nat (min n r), s1)
-  | .capBegin => .error (.panic "capture is not modelled in the stream layer")
-  | .capEnd => .error (.panic "capture is not modelled in the stream layer")
-  | .getPos => .ok (.nat s.data.length, s)
+  | .capBegin => .ok (.unit, { s with frames := { buf := [], outer := s.limit } :: s.frames })
+  | .capEnd =>
+    match s.capEnd with
+    | .ok (bs, s') => .ok (.bytes bs, s')
+    | .error e => .error e
+  | .getPos => .ok (.nat (s.data.length - s.off), s)
 
 def runS (pol : Policy) : Prog α → S → Res (α × S)
   | .ret a, s => .ok (a, s)
